@@ -43,6 +43,9 @@ structure PInv (ex : Pid → Prop) (fr : Pid → Option Frame) (w : World) : Pro
   /-- a pending event-done wake-up belongs to a process that awaits an event and is no longer registered with it -/
   oe : ∀ e ∈ w.ev.pending, e.item.a = aEvent → ∀ p, e.item.b = p + 1 → ¬ ex p →
     ∃ h, Await.event h ∈ (w.proc p).awaits ∧ p ∉ evWaitersOf w h
+  /-- … whose event is no longer scheduled (it has been executed or cancelled) -/
+  oh : ∀ e ∈ w.ev.pending, e.item.a = aEvent → ∀ p, e.item.b = p + 1 → ¬ ex p →
+    ∀ h, Await.event h ∈ (w.proc p).awaits → h ∉ keys w.ev.pending ∧ h ≤ w.ev.counter
   /-- at most one of each per process -/
   up : ∀ e1 ∈ w.ev.pending, ∀ e2 ∈ w.ev.pending, e1.item.a = aProc → e2.item.a = aProc → e1.item.b = e2.item.b →
     ∀ p, e1.item.b = p + 1 → ¬ ex p → e1 = e2
@@ -65,8 +68,17 @@ theorem evAw_congr {w w' : World} (h : SameCtl w w') (p : Pid) : evAw w' p = evA
 theorem PInv.congr {ex : Pid → Prop} {fr : Pid → Option Frame} {w w' : World} (hp : PInv ex fr w) (hc : SameCtl w w')
     (hw : w'.evWaiters = w.evWaiters)
     (he : ∀ e' ∈ w'.ev.pending, e'.item.a = aProc ∨ e'.item.a = aEvent → ∃ e ∈ w.ev.pending, e.key = e'.key ∧ e.item = e'.item)
-    (hei : EvInv w'.ev) : PInv ex fr w' where
+    (hei : EvInv w'.ev)
+    (hkeys : ∀ e' ∈ w'.ev.pending, e'.key ≤ w.ev.counter → e'.key ∈ keys w.ev.pending)
+    (hctr : w.ev.counter ≤ w'.ev.counter) : PInv ex fr w' where
   ei := hei
+  oh := by
+    intro e' he' ha p hb hx h hh
+    obtain ⟨e, hem, _, hi⟩ := he e' he' (Or.inr ha)
+    obtain ⟨h1, h2⟩ := hp.oh e hem (by rw [hi]; exact ha) p (by rw [hi]; exact hb) hx h (by rw [← (hc p).1]; exact hh)
+    refine ⟨fun hm => ?_, Nat.le_trans h2 hctr⟩
+    obtain ⟨e2, he2, hk2⟩ := Event.mem_keys.1 hm
+    exact h1 (hk2 ▸ hkeys e2 he2 (by rw [hk2]; exact h2))
   ap := fun p => by rw [procAw_congr hc]; exact hp.ap p
   ae := fun p => by rw [evAw_congr hc]; exact hp.ae p
   ar := fun p h => by rw [procAw_congr hc, evAw_congr hc]; exact hp.ar p (by rw [← (hc p).2.2.1]; exact h)
@@ -119,6 +131,7 @@ theorem sameCtl_modProc (w : World) (p : Pid) (f : Proc → Proc)
 theorem PInv.same {ex : Pid → Prop} {fr : Pid → Option Frame} {w w' : World} (hp : PInv ex fr w) (hc : SameCtl w w')
     (hw : w'.evWaiters = w.evWaiters) (he : w'.ev = w.ev) : PInv ex fr w' :=
   hp.congr hc hw (by rw [he]; exact fun e h _ => ⟨e, h, rfl, rfl⟩) (by rw [he]; exact hp.ei)
+    (by rw [he]; exact fun e h _ => Event.mem_keys.2 ⟨e, h, rfl⟩) (by rw [he]; exact Nat.le_refl _)
 
 theorem PInv.fail {ex : Pid → Prop} {fr : Pid → Option Frame} {w : World} (h : PInv ex fr w) (m : String) : PInv ex fr (w.fail m) :=
   h.same (sameCtl_of_procs (by simp)) (by simp) (by simp)
@@ -150,15 +163,20 @@ theorem PInv.setGuardQ {ex : Pid → Prop} {fr : Pid → Option Frame} {w : Worl
 /-- scheduling anything but a process-end / event-done wake-up -/
 theorem PInv.pushEv_other {ex : Pid → Prop} {fr : Pid → Option Frame} {w : World} (h : PInv ex fr w) (a s : Nat) (sig t pri : Int)
     (ht : w.now ≤ t) (ha : a ≠ aProc ∧ a ≠ aEvent) : PInv ex fr (pushEv w a s sig t pri) := by
-  refine h.congr (SameCtl.refl _) rfl ?_ (pushEv_evinv a s sig t pri ht h.ei)
-  intro e' he' hk
-  simp only [pushEv_pending, List.mem_cons] at he'
-  rcases he' with rfl | he'
-  · simp only [mkEv] at hk
-    rcases hk with hk | hk
-    · exact absurd hk ha.1
-    · exact absurd hk ha.2
-  · exact ⟨e', he', rfl, rfl⟩
+  refine h.congr (SameCtl.refl _) rfl ?_ (pushEv_evinv a s sig t pri ht h.ei) ?_ (by simp)
+  · intro e' he' hk
+    simp only [pushEv_pending, List.mem_cons] at he'
+    rcases he' with rfl | he'
+    · simp only [mkEv] at hk
+      rcases hk with hk | hk
+      · exact absurd hk ha.1
+      · exact absurd hk ha.2
+    · exact ⟨e', he', rfl, rfl⟩
+  · intro e' he' hk
+    simp only [pushEv_pending, List.mem_cons] at he'
+    rcases he' with rfl | he'
+    · simp only [mkEv] at hk; omega
+    · exact Event.mem_keys.2 ⟨e', he', rfl⟩
 
 theorem PInv.sched_other {ex : Pid → Prop} {fr : Pid → Option Frame} {w : World} (h : PInv ex fr w) (a s : Nat) (sig t pri : Int)
     (ha : a ≠ aProc ∧ a ≠ aEvent) : PInv ex fr (sched w a s sig t pri).1 := by
@@ -170,16 +188,21 @@ theorem PInv.sched_other {ex : Pid → Prop} {fr : Pid → Option Frame} {w : Wo
 theorem PInv.reprioEv {ex : Pid → Prop} {fr : Pid → Option Frame} {w : World} (h : PInv ex fr w) {k : Nat} {v : Int} {ev' : EvQ}
     (hr : reprioritize w.ev k v = .ok ev') : PInv ex fr { w with ev := ev' } := by
   have hinv := (reprioritize_inv h.ei hr).1
-  refine h.congr (SameCtl.refl _) rfl ?_ hinv
   unfold reprioritize at hr
   split at hr
   · cases hr
   · simp only [Except.ok.injEq] at hr
     subst hr
-    intro e' he' _
-    simp only [List.mem_map] at he'
-    obtain ⟨e, he, rfl⟩ := he'
-    refine ⟨e, he, ?_, ?_⟩ <;> split <;> rfl
+    refine h.congr (SameCtl.refl _) rfl ?_ hinv ?_ (Nat.le_refl _)
+    · intro e' he' _
+      simp only [List.mem_map] at he'
+      obtain ⟨e, he, rfl⟩ := he'
+      refine ⟨e, he, ?_, ?_⟩ <;> split <;> rfl
+    · intro e' he' _
+      simp only [List.mem_map] at he'
+      obtain ⟨e, he, rfl⟩ := he'
+      refine Event.mem_keys.2 ⟨e, he, ?_⟩
+      split <;> rfl
 
 
 /-! ### cancelling an event (any handle) -/
@@ -232,6 +255,16 @@ theorem PInv.evWaitersOf_nodup {ex : Pid → Prop} {fr : Pid → Option Frame} {
   | none => simp
   | some l => exact hp.en.2 h l (lookup_mem hl)
 
+theorem PInv.event_unique' {ex : Pid → Prop} {fr : Pid → Option Frame} {w : World} (hp : PInv ex fr w) {x : Pid} {a b : Nat}
+    (ha : Await.event a ∈ (w.proc x).awaits) (hb : Await.event b ∈ (w.proc x).awaits) : a = b := by
+  have ha' : Await.event a ∈ evAw w x := List.mem_filter.2 ⟨ha, rfl⟩
+  have hb' : Await.event b ∈ evAw w x := List.mem_filter.2 ⟨hb, rfl⟩
+  rcases hp.ae x with h | ⟨q, _, h⟩
+  · rw [h] at ha'; cases ha'
+  · rw [h] at ha' hb'
+    simp only [List.mem_singleton, Await.event.injEq] at ha' hb'
+    rw [ha', hb']
+
 theorem proc_congr {w w' : World} (h : w'.procs = w.procs) (p : Pid) : w'.proc p = w.proc p := by
   unfold World.proc; rw [h]
 
@@ -239,7 +272,8 @@ theorem proc_congr {w w' : World} (h : w'.procs = w.procs) (p : Pid) : w'.proc p
     registrations are taken off the table -/
 theorem PInv.popWake {ex : Pid → Prop} {fr : Pid → Option Frame} {w w1 : World} (hp : PInv ex fr w) (h : Nat) (sig : Int)
     (hprocs : w1.procs = w.procs) (hwt : w1.evWaiters = w.evWaiters.filter (·.1 ≠ h))
-    (hsub : ∀ e ∈ w1.ev.pending, e ∈ w.ev.pending) (hei : EvInv w1.ev) :
+    (hsub : ∀ e ∈ w1.ev.pending, e ∈ w.ev.pending) (hei : EvInv w1.ev)
+    (hh : h ∈ keys w.ev.pending) (hgone : h ∉ keys w1.ev.pending) (hctr : w1.ev.counter = w.ev.counter) :
     PInv ex fr (pushAll w1 (evWakes w (evWaitersOf w h) sig)) := by
   have hpr : ∀ x, (pushAll w1 (evWakes w (evWaitersOf w h) sig)).proc x = w.proc x := fun x => by
     rw [pushAll_proc]; exact proc_congr hprocs x
@@ -272,7 +306,7 @@ theorem PInv.popWake {ex : Pid → Prop} {fr : Pid → Option Frame} {w w1 : Wor
            fb := fun x hxx hx => by rw [procAw_congr hsc, evAw_congr hsc]; rw [hpr] at hx; exact hp.fb x hxx hx,
            w1 := fun x q hq hx => by rw [hpr] at hq ⊢; exact hp.w1 x q hq hx,
            wn := fun x => by rw [hpr]; exact hp.wn x,
-           e1 := ?_, en := ?_, op := ?_, oe := ?_, up := ?_, ue := ?_ }
+           e1 := ?_, en := ?_, op := ?_, oe := ?_, up := ?_, ue := ?_, oh := ?_ }
   · intro h' l q hm hq hx
     simp only [pushAll_evWaiters, hwt, List.mem_filter] at hm
     rw [hpr]; exact hp.e1 h' l q hm.1 hq hx
@@ -299,6 +333,37 @@ theorem PInv.popWake {ex : Pid → Prop} {fr : Pid → Option Frame} {w w1 : Wor
       rw [hwo]; split
       · simp
       · exact h2
+  · -- the awaited event of a pending event-done wake-up is no longer scheduled
+    have hhle : h ≤ w.ev.counter := by
+      obtain ⟨e0, he0, hk0⟩ := Event.mem_keys.1 hh
+      rw [← hk0]; exact EvInv.key_le hp.ei he0
+    have hfresh : ∀ k, k ≤ w.ev.counter → k ∉ keys w.ev.pending →
+        k ∉ keys (pushAll w1 (evWakes w (evWaitersOf w h) sig)).ev.pending := by
+      intro k hk hkn hm
+      obtain ⟨e2, he2, hk2⟩ := Event.mem_keys.1 hm
+      simp only [pushAll_pending, List.mem_append] at he2
+      rcases he2 with he2 | he2
+      · have := (wakeEvs_props he2).1
+        rw [hctr] at this; omega
+      · exact hkn (Event.mem_keys.2 ⟨e2, hsub e2 he2, hk2⟩)
+    intro e he ha p hb hx h' hh'
+    rw [hpr] at hh'
+    simp only [pushAll_pending, List.mem_append] at he
+    rcases he with he | he
+    · obtain ⟨_, q, hq, hbq⟩ := hnew e he
+      have : q = p := Nat.add_right_cancel (hbq.symm.trans hb)
+      subst this
+      have : h' = h := (hp.event_unique' hh' (hL q hq hx))
+      subst this
+      refine ⟨fun hm => ?_, by simp only [pushAll_counter]; rw [hctr]; omega⟩
+      obtain ⟨e2, he2, hk2⟩ := Event.mem_keys.1 hm
+      simp only [pushAll_pending, List.mem_append] at he2
+      rcases he2 with he2 | he2
+      · have := (wakeEvs_props he2).1
+        rw [hctr] at this; omega
+      · exact hgone (Event.mem_keys.2 ⟨e2, he2, hk2⟩)
+    · obtain ⟨h1, h2⟩ := hp.oh e (hsub e he) ha p hb hx h' hh'
+      exact ⟨hfresh h' h2 h1, by simp only [pushAll_counter]; rw [hctr]; omega⟩
   · intro a ha b hb haa hba hbb p hbp hx
     simp only [pushAll_pending, List.mem_append] at ha hb
     rcases ha with ha | ha
@@ -341,7 +406,10 @@ theorem PInv.evCancel_fst {ex : Pid → Prop} {fr : Pid → Option Frame} {w : W
   split
   · rename_i hk
     change PInv ex fr (pushAll (cancelEv w h) (evWakes w (evWaitersOf w h) sigCancelled))
-    exact hp.popWake h sigCancelled rfl rfl (fun e he => (mem_remove.1 he).1) (cancelEv_evinv hk hp.ei)
+    exact hp.popWake h sigCancelled rfl rfl (fun e he => (mem_remove.1 he).1) (cancelEv_evinv hk hp.ei) hk
+      (fun hm => by
+        obtain ⟨e2, he2, hk2⟩ := Event.mem_keys.1 hm
+        exact (mem_remove.1 he2).2 hk2) rfl
   · exact hp
 
 end CimbaModel.Sim.S3
